@@ -294,6 +294,37 @@ def _r11a_route(P, R):
                     "all %d variants routed explicitly" % len(v),
                     "%s does not route every %s variant explicitly: %s, catch-all=%s"
                     % (g.path, enum, sorted(set(adt.variant_names()) - v), catch), loc=g.loc())
+    # every item is routed whatever it contains: an arm with a guard that hands the item to nothing drops the items the guard selects
+    try:
+        rg = registry(P)
+        sinks = {rg.set.path, rg.add.path}
+    except AnchorMissing:
+        sinks = set()
+    reach_ = {}
+
+    def registers(node):
+        for x in subnodes(node):
+            cn = call_name(x) if x.get("k") in ("Call", "MethodCall") else None
+            if cn in sinks:
+                return True
+            if cn in P.fns and P.fns[cn].crate == CRATE:
+                if cn not in reach_:
+                    reach_[cn] = bool(sinks & P.reachable([P.fns[cn]]))
+                if reach_[cn]:
+                    return True
+            if x.get("k") == "MethodCall" and x.get("method") in ("push", "push_back", "extend"):
+                return True
+        return False
+    if sinks:
+        for enum in ("type_system::TypeSystemDefinitionOrExtension", "type_system::TypeDefinition", "type_system::TypeExtension"):
+            for g, m in _route_matches(P, enum):
+                for arm in m["arms"]:
+                    if "guard" in arm and not registers(arm["body"]):
+                        v, _c = arm_variants({"arms": [arm]})
+                        what = sorted({y["method"] if y.get("k") == "MethodCall" else short(call_name(y) or "?") for y in subnodes(arm["guard"]) if y.get("k") in ("Call", "MethodCall")})
+                        R.violated("R11-a", "route-unconditional:" + "/".join(sorted(v) or ["_"]),
+                                   "%s drops %s items for which %s holds instead of registering them: what they carry is not merged, and an "
+                                   "item of that kind without a definition is no longer reported" % (g.path, "/".join(sorted(v)) or "some", what or "a guard"), loc=g.loc())
     # directive definitions are pushed unchanged and unconditionally in their arm
     ms = _route_matches(P, "type_system::TypeSystemDefinitionOrExtension")
     for g, m in ms:
@@ -1289,6 +1320,16 @@ def _builtins_appended(P, R, DOC, ITEM):
                 for z in subnodes(y):
                     if z.get("k") == "MethodCall" and z["method"] in ("contains", "contains_key", "get") and _strip_deref(z["recv"]).get("k") == "Path":
                         consulted.add(_strip_deref(z["recv"]).get("local"))
+                import prov as _prov
+                for lid in consulted:
+                    for src, _x in gpv.src.get(lid, []):
+                        if src is None:
+                            continue
+                        da = set(gpv.deep_atoms(src))
+                        for x in list(da):
+                            if x[0] == "def" and x[1] in P.fns:
+                                da |= set(_prov.return_summary(x[1]))
+                        leaked |= {x[1].split("::")[-1] for x in da if x[0] == "field" and x[1] in ext_adts and x[2] == "name"}
                 for z in g.walk():
                     if z.get("k") == "MethodCall" and z["args"] and z["method"] in ("insert", "extend", "push") \
                             and _strip_deref(z["recv"]).get("k") == "Path" and _strip_deref(z["recv"]).get("local") in consulted:
